@@ -218,13 +218,37 @@ func watermarkDiscipline(out []vx.Msg) (monotone, notLate bool) {
 	return
 }
 
-// VerifC18Join: two watermarked inputs (vx.NDWatermarkedScript: monotone watermarks, no late
+// ndWatermarkedScript builds exactly L messages for one join input: each a record (symbolic
+// Int|NULL key, concrete payload, event time 1..tch seconds after this input's current watermark)
+// or a watermark advancing by 1..wj seconds. Monotone watermarks, no late record, by construction.
+// (Private copy of the generator used by vx's C19 harness, so that the two can evolve separately.)
+func ndWatermarkedScript(name string, L, tch, wj, payloadBase int) []vx.Msg {
+	var out []vx.Msg
+	w := int64(0)
+	for i := 0; i < L; i++ {
+		if zzverif.Choice(fmt.Sprintf("%s.m%d.kind", name, i), 2) == 0 {
+			t := w + 1 + int64(zzverif.Choice(fmt.Sprintf("%s.m%d.dt", name, i), tch))
+			key := vx.NDCell(fmt.Sprintf("%s.m%d.key", name, i))
+			out = append(out, vx.Msg{Kind: vx.MsgRecord, Rec: execution.Record{
+				Values:    []octosql.Value{key, octosql.NewInt(int64(payloadBase + i))},
+				EventTime: time.Unix(t, 0),
+			}})
+		} else {
+			w += 1 + int64(zzverif.Choice(fmt.Sprintf("%s.m%d.dw", name, i), wj))
+			out = append(out, vx.Msg{Kind: vx.MsgWatermark, Watermark: time.Unix(w, 0)})
+		}
+	}
+	return out
+}
+
+// VerifC18Join: two watermarked inputs (ndWatermarkedScript: monotone watermarks, no late
 // records, symbolic Int|NULL keys) through StreamJoin / OuterJoin (KIND = vx.Join*), every
 // receive order.
 func VerifC18Join() {
 	L, tch, kind := zzverif.Param("L"), zzverif.Param("TCH"), zzverif.Param("KIND")
-	left := vx.NDWatermarkedScript("l", L, tch, 0)
-	right := vx.NDWatermarkedScript("r", L, tch, 100)
+	wj := zzverif.Param("WJ")
+	left := ndWatermarkedScript("l", L, tch, wj, 0)
+	right := ndWatermarkedScript("r", L, tch, wj, 100)
 	if zzverif.Param("KEYMODE") == 0 {
 		// all keys equal: every left record matches every right record (no forks on key comparisons)
 		for _, sc := range [][]vx.Msg{left, right} {
